@@ -760,8 +760,12 @@ func (db *DB) execInsert(s insertStmt, args []any) (*Result, *Error) {
 	if err := db.validateAll(t, args, s.returning...); err != nil {
 		return nil, err
 	}
-	vals := make([]any, len(cols))
+	var vals []any
+	var given []int
 	for i, e := range s.values {
+		if _, isDefault := e.(eDefault); isDefault {
+			continue // as if the column were not listed
+		}
 		if err := db.validate(e, nil, args); err != nil {
 			return nil, err
 		}
@@ -769,8 +773,10 @@ func (db *DB) execInsert(s insertStmt, args []any) (*Result, *Error) {
 		if err != nil {
 			return nil, err
 		}
-		vals[i] = v
+		vals = append(vals, v)
+		given = append(given, cols[i])
 	}
+	cols = given
 	row, err := db.insertRow(t, cols, vals)
 	if err != nil {
 		return nil, err
